@@ -129,3 +129,23 @@ def witness_sat(report, ob, name):
     report.vacuity.append(dict(name=name, expect='sat', got=r['verdict']))
     if r['verdict'] == 'unsat':
         report.harness_errors.append(f"sensitivity witness {name} came back unsat")
+
+
+def replay_blocks(build, payload):
+    """Generic replay for jet checks: rebuild the harness from /repo's current tree, find the
+    obligation by name and re-run the real float code at the stored model."""
+    from symx.npproxy import patched
+    model = model_from_json(payload['model'])
+    blocks = build('thorough') if payload.get('tier') == 'thorough' else build('quick')
+    for blk in blocks:
+        for ob in blk['obs']:
+            if ob.name == payload['obligation']:
+                if ob.get is None or blk['run'] is None:
+                    a, b = eval_terms([ob.impl, ob.oracle], model)
+                    print(f"impl={a} oracle={b}")
+                    return 1 if a != b else 0
+                rp = replay_jet(blk['run'], ob, model)
+                print(json.dumps(rp, indent=1, default=str))
+                return 1 if rp['reproduces'] else 0
+    print("obligation not found in the current harness")
+    return 3
